@@ -104,6 +104,7 @@ package remux
 //@ func (*Rtmp2MpegtsRemuxer).feedVideo
 //@   props C06 C05
 //@   safety C05
+//@   loop 1 step [C06.ts.video.drop] len(s.videoOut) == old(len(s.videoOut)) ==> (codecId == 7 && (nalType == 9 || nalType == 7 || nalType == 8)) || (codecId == 12 && (nalType == 35 || nalType == 32 || nalType == 33 || nalType == 34 || nalType == 39 || nalType == 40))
 //@   assert after "frame.Sid = mpegts.StreamIdVideo" [C06.ts.video.pts] slow: frame.Dts == uint64(msg.Header.TimestampAbs) * 90 && frame.Pts == uint64(msg.Header.TimestampAbs) * 90 + 90 * uint64(frame.Cts)
 //@   assert after "frame.Sid = mpegts.StreamIdVideo" [C06.ts.video.raw] frame.Pid == 0x100 && frame.Sid == 0xe0 && frame.Raw == s.videoOut && frame.Cc == s.videoCc
 //@ end
@@ -128,6 +129,11 @@ package remux
 //@ end
 //@ func (*AvPacket2RtmpRemuxer).FeedAvPacket
 //@   props C07
+//@   loop 1 step [C07.feed.drop] pos == old(pos) ==> defined(t) && ((pkt.PayloadType == base.AvPacketPtAvc && (t == 9 || t == 7 || t == 8)) || (pkt.PayloadType == base.AvPacketPtHevc && (t == 35 || t == 32 || t == 33 || t == 34)))
+//@   assert after "payload[1] = base.RtmpAvcPacketTypeNalu" [C07.feed.key.avc] payload[0] == (t == 5 ? base.RtmpAvcKeyFrame : base.RtmpAvcInterFrame) && payload[1] == 1
+//@   assert after "payload[1] = base.RtmpHevcPacketTypeNalu" [C07.feed.key.hevc] payload[0] == (t >= 16 && t <= 23 ? base.RtmpHevcKeyFrame : base.RtmpHevcInterFrame) && payload[1] == 1
+//@   assert after "pos += len(nal)"@1 [C07.feed.nal.avc] int: pos <= len(payload) && disjoint(nal, payload) ==> pos >= 4 + len(nal) && payload[pos - len(nal) - 1] == uint8(len(nal)) && payload[pos - len(nal) - 2] == uint8(len(nal) >> 8) && payload[pos - len(nal) - 3] == uint8(len(nal) >> 16) && payload[pos - len(nal) - 4] == uint8(len(nal) >> 24) && forall i in [0, len(nal)) :: payload[pos - len(nal) + i] == nal[i]
+//@   assert after "pos += len(nal)"@2 [C07.feed.nal.hevc] int: pos <= len(payload) && disjoint(nal, payload) ==> pos >= 4 + len(nal) && payload[pos - len(nal) - 1] == uint8(len(nal)) && payload[pos - len(nal) - 2] == uint8(len(nal) >> 8) && payload[pos - len(nal) - 3] == uint8(len(nal) >> 16) && payload[pos - len(nal) - 4] == uint8(len(nal) >> 24) && forall i in [0, len(nal)) :: payload[pos - len(nal) + i] == nal[i]
 //@   assert after "copy(payload[2:], pkt.Payload)" [C07.feed.rawaac] int: len(payload) == len(pkt.Payload) + 2 && payload[0] == 0xAF && payload[1] == 1 && forall i in [0, len(pkt.Payload)) :: payload[2 + i] == pkt.Payload[i]
 //@   assert after "copy(payload[1:], pkt.Payload)"@1 [C07.feed.g711a] int: len(payload) == len(pkt.Payload) + 1 && payload[0] == 0x72 && forall i in [0, len(pkt.Payload)) :: payload[1 + i] == pkt.Payload[i]
 //@   assert after "copy(payload[1:], pkt.Payload)"@2 [C07.feed.g711u] int: len(payload) == len(pkt.Payload) + 1 && payload[0] == 0x82 && forall i in [0, len(pkt.Payload)) :: payload[1 + i] == pkt.Payload[i]
